@@ -7,6 +7,6 @@ CONSTANTS
   Extra = 1
   First = 5
   Scripts <- Scripts2x21
-  ErrSets <- OneErr
+  ErrSets <- OneErr1
   StepGuard = FALSE
 INVARIANTS InitFirst Consecutive StepLower StepUpper DeleteStops Delivered StuckOnlyAfterStop
